@@ -487,7 +487,48 @@ pub fn run(args: &Args, sink: &mut Sink, asyncf: bool) {
         }).collect();
         run_case(sink, &format!("R{k}"), r.chance(1, 2), asyncf, &seq);
     }
+    run_cross(sink, asyncf);
     if asyncf { run_guards(args, sink); }
+}
+
+// ---------------------------------------------------------------------------------------------------------
+// handles of two different observables assigned to one another (`Clone::clone_from`, plain assignment): the counts
+// of both observables stay exact (C19). Two observables are outside the one-observable model: oracles only.
+fn run_cross(sink: &mut Sink, asyncf: bool) {
+    let per_sub = if asyncf { 2 } else { 1 }; // async subscribers hold two references (known finding D8)
+    macro_rules! scen { ($new:expr, $flav:ty, $sub:expr, $tag:expr) => {{
+        for variant in 0..4 {
+            sink.case(&format!("XCF:{}:{variant}", $tag));
+            let a: SharedObservable<T, $flav> = $new(T(1));
+            let b: SharedObservable<T, $flav> = $new(T(2));
+            let mut a2 = a.clone();
+            let b2 = b.clone();
+            let mut sa: Subscriber<T, $flav> = $sub(&a);
+            let sb: Subscriber<T, $flav> = $sub(&b);
+            let mut expect = |what: &str, a_cl: usize, a_su: usize, b_cl: usize, b_su: usize, sink: &mut Sink| {
+                let got = (a.observable_count(), a.subscriber_count(), a.strong_count(), b.observable_count(), b.subscriber_count(), b.strong_count());
+                let want = (a_cl, a_su * per_sub, a_cl + a_su * per_sub, b_cl, b_su * per_sub, b_cl + b_su * per_sub);
+                if got != want { sink.oracle_fail("C19", &format!("{what}: counts (observable, subscriber, strong) of the two observables are {got:?}, the live handles say {want:?}")); }
+            };
+            expect("two observables, two clones and one subscriber each", 2, 1, 2, 1, sink);
+            match variant {
+                0 => { a2.clone_from(&b); expect("after a2.clone_from(&b)", 1, 1, 3, 1, sink); }
+                1 => { a2 = b.clone(); expect("after a2 = b.clone()", 1, 1, 3, 1, sink); }
+                2 => { sa.clone_from(&sb); expect("after sa.clone_from(&sb)", 2, 0, 2, 2, sink); }
+                _ => { sa = sb.clone(); expect("after sa = sb.clone()", 2, 0, 2, 2, sink); }
+            }
+            drop(b2);
+            match variant { 0 | 1 => expect("after dropping a clone of b", 1, 1, 2, 1, sink), _ => expect("after dropping a clone of b", 2, 0, 1, 2, sink) }
+            let _ = (&a2, &sa, &sb);
+            sink.line(&format!("xcf {} {variant}", $tag), "ok");
+            sink.nontrivial();
+        }
+    }}; }
+    if asyncf {
+        scen!(SharedObservable::<T, AsyncLock>::new_async, AsyncLock, |o: &SharedObservable<T, AsyncLock>| now(o.subscribe()).expect("subscribe blocked"), "async");
+    } else {
+        scen!(SharedObservable::<T>::new, eyeball::SyncLock, |o: &SharedObservable<T>| o.subscribe(), "sync");
+    }
 }
 
 // ---------------------------------------------------------------------------------------------------------
